@@ -423,6 +423,8 @@ def run(ctx, rep):
     c04_progress.run(ctx, rep, rid="R-C12-progress")
     from rules import c04_magnitude
     c04_magnitude.run(ctx, rep, rid="R-C12-magnitude")
+    from rules import c04_backtrack
+    c04_backtrack.run(ctx, rep, rid="R-C12-backtrack")
     from rules import c04_recursion
     c04_recursion.run_fanout(ctx, rep, rid="R-C12-fanout")
     c04_recursion.run_depth(ctx, rep, rid="R-C12-depth")
